@@ -19,7 +19,7 @@ def main():
     ap.add_argument("--seed", type=int, default=int(os.environ.get("VERIF_SEED") or 1))
     ap.add_argument("--replay")
     a = ap.parse_args()
-    plugin = importlib.import_module("props." + a.id.lower())
+    plugin = core.load_plugin(a.id)
     if a.replay:
         payload = json.loads(Path(a.replay).read_text())
         ctx = core.Ctx(plugin.ID, a.tier, payload.get("seed", a.seed))
